@@ -16,7 +16,8 @@ META = {
         'format carries a literal zone designator (GMT, Z, UTC, +0000) must be applied to a value normalised to UTC on every '
         'path (astimezone(UTC) / utctimetuple), because the parser (dateutil) accepts other offsets. R3 marker folding is a '
         'bijection: each cipher suite the client hello parser folds into a boolean is not also kept in the list, and compose '
-        'emits it exactly when the boolean is set.'),
+        'emits it exactly when the boolean is set.'
+        ' R4: optional fields keep None through their converter. R5: tabulated name[=value] composers. R6: URLs are rebuilt from all their parts.'),
     'assumptions': ['equality after the second parse for all accepted spellings (naive vs aware datetimes, URL normalisation, '
                     'base64 canonical form, float formatting) is not decided'],
     'trusted_base': ['python ast', 'sa.compare (C01 layouts)'],
